@@ -1,4 +1,4 @@
-import Httoop.Proofs.ElementRoundtrip
+import Httoop.Proofs.ElementList
 import Httoop.Ops.Element
 /-
   C09 — "composing an element and parsing the result yields the element": the whole element, with any number of
@@ -28,6 +28,22 @@ theorem c09_element_witness :
                                  ("q".toUTF8.toList, "0.5".toUTF8.toList)] }
     parse (compose Ops.unres e) = .ok e ∧
     compose Ops.unres e = "text/html; charset=utf-8; title=\"a; b, c\"; q=0.5".toUTF8.toList := by
+  decide +kernel
+
+/-- **the list clause.**  Elements as above whose values and keys are also free of `,` (and the values of `"`),
+    joined by `HeaderElement.join`: `HeaderElement.split` gives back exactly the composed elements — a comma inside
+    a quoted parameter value does not cut, no element merges with its neighbour — and each parses to its element. -/
+theorem list_roundtrip (unres : Byte → Bool) (es : List Elem) (hne : es ≠ []) (h : ∀ e ∈ es, ElemGood unres e) :
+    split (join (es.map (compose unres))) = es.map (compose unres) ∧
+    (split (join (es.map (compose unres)))).map parse = es.map .ok :=
+  list_parse_compose unres es hne h
+
+/-- two elements, a comma and a semicolon inside quoted values -/
+theorem c09_list_witness :
+    let e1 : Elem := { value := "a".toUTF8.toList, params := [("x".toUTF8.toList, "1,2".toUTF8.toList)] }
+    let e2 : Elem := { value := "b".toUTF8.toList, params := [("y".toUTF8.toList, "p; q".toUTF8.toList), ("z".toUTF8.toList, "3".toUTF8.toList)] }
+    join [compose Ops.unres e1, compose Ops.unres e2] = "a; x=\"1,2\", b; y=\"p; q\"; z=3".toUTF8.toList ∧
+    (split (join [compose Ops.unres e1, compose Ops.unres e2])).map parse = [.ok e1, .ok e2] := by
   decide +kernel
 
 end Httoop.Element
